@@ -584,11 +584,25 @@ class Interp:
                     self.bind(a["pat"], scrut, en)
                     return self.exec_expr_tree(a["body"], en)
         arms = []
+        guarded = any("guard" in a for a in e["arms"])
+        if guarded:
+            # arms with `if` guards: a chain of tests in arm order (pattern test and guard), the last arm is the default
+            tests = []
+            for a in e["arms"]:
+                en = dict(env)
+                self.bind(a["pat"], scrut, en)
+                c = ("is", scrut, self.pat_desc(a["pat"]))
+                if "guard" in a:
+                    g = self.ev(a["guard"], en)
+                    c = ("bin", "And", c, g)
+                tests.append((c, self.exec_expr_tree(a["body"], en)))
+            tree = tests[-1][1]
+            for (c, t) in reversed(tests[:-1]):
+                tree = Split(c, t, tree)
+            return tree
         for a in e["arms"]:
             en = dict(env)
             self.bind(a["pat"], scrut, en)
-            if "guard" in a:
-                raise Unanalysable("match guard")
             t = self.exec_expr_tree(a["body"], en)
             arms.append((self.pat_desc(a["pat"]), t))
         if all(isinstance(t, Leaf) and t.status == "fall" for _, t in arms):
@@ -1188,6 +1202,19 @@ class Interp:
             return recv[1]
         if m == "unwrap_or" and recv[0] == "none":
             return args[0]
+        if m in ("map", "and_then") and recv[0] in ("some", "none") and args and args[-1][0] == "closure" and e["recv"]["ty"].lstrip("&").startswith("std::option::Option<"):
+            # statically known Option: `Some(x).map(f)` is `Some(f(x))`, `None.map(f)` is `None`
+            if recv[0] == "none":
+                return ("none",)
+            clo = args[-1]
+            cenv = dict(clo[2])
+            for p_ in clo[1]["params"]:
+                self.bind(p_, recv[1], cenv)
+            try:
+                bodyv = self.collapse_value(self.exec_expr_tree(clo[1]["body"], cenv))
+                return ("some", bodyv) if m == "map" else bodyv
+            except Unanalysable:
+                pass
         if m in ("and_then", "map", "map_or", "unwrap_or_else", "or_else", "filter") and args and args[-1][0] == "closure" and \
                 e["recv"]["ty"].lstrip("&").startswith("std::option::Option<"):
             clo = args[-1]
@@ -1200,7 +1227,7 @@ class Interp:
             except Unanalysable:
                 bodyv = ("?",)
             return ("mcall", sname, recv, tuple(self.opaque_arg(a) for a in args[:-1]) + (("lambdav", bodyv),))
-        if m in ("map", "sum", "filter_map", "filter") and args and args[0][0] == "closure":
+        if m in ("map", "sum", "filter_map", "filter", "any", "all") and args and args[0][0] == "closure":
             return ("mcall", sname, recv, (self.closure_summary(args[0], recv),))
         if name in self.hir and self.is_producer(name):
             return ("buf", self.production(name, [recv] + args))
